@@ -669,7 +669,11 @@ fn all_seqs(k: usize, depth: usize) -> Vec<Vec<usize>> {
     out
 }
 
-const MV_OPS: [&str; 11] = ["push", "extend3", "pop", "truncate_half", "clear", "sync", "reserve8", "shrink_to_fit", "resize+2", "set_first", "sync+close+open"];
+const MV_OPS: [&str; 15] = [
+    "push", "extend3", "pop", "truncate_half", "clear", "sync", "reserve8", "shrink_to_fit", "resize+2", "set_first", "sync+close+open",
+    // the bulk entry points (seed C19k): copy_from_simd from a 12-element vector, push_bulk_simd of 5, pop_bulk_simd of 2, fill_range_simd over everything
+    "copy_from(12)", "push_bulk5", "pop_bulk2", "fill_all",
+];
 
 struct MmapVecOps {
     ops: Vec<usize>,
@@ -697,6 +701,15 @@ impl MmapVecOps {
             8 => {
                 let n = v.len() + 2;
                 v.resize(n, val).map_err(es)
+            }
+            12 => v.push_bulk_simd(&[val, val + 1, val + 2, val + 3, val + 4]).map_err(es),
+            13 => {
+                let n = v.len().min(2);
+                v.pop_bulk_simd(n).map(|_| ()).map_err(es)
+            }
+            14 => {
+                let n = v.len();
+                v.fill_range_simd(0..n, val).map_err(es)
             }
             _ => {
                 if let Some(x) = v.get_mut(0) {
@@ -750,6 +763,19 @@ impl CrashSpec for MmapVecOps {
                 rec.sync_point(mv32_state(&v));
                 drop(v);
                 v = MmapVec::open(&p, MmapVecConfig::builder().with_sync_on_write(self.sync_on_write).build()).map_err(es)?;
+                rec.op_boundary(mv32_state(&v));
+                continue;
+            }
+            if *op == 11 {
+                // the source is a second, never synced file-backed vector in the same directory
+                let val = 0x1000_0000u32 * (i as u32 + 1) + 0x0101_0101;
+                let sp = dir.join(format!("src{i}.mmapvec"));
+                let mut src: MmapVec<u32> = MmapVec::create(&sp, MmapVecConfig::builder().with_initial_capacity(12).build()).map_err(es)?;
+                for k in 0..12u32 {
+                    src.push(val + k).map_err(es)?;
+                }
+                v.copy_from_simd(&src).map_err(es)?;
+                drop(src);
                 rec.op_boundary(mv32_state(&v));
                 continue;
             }
